@@ -45,6 +45,7 @@ type Exec struct {
 	pure     int
 	discover int
 	curBlock *ssa.BasicBlock // block of the call instruction being executed
+	sitePost map[string]*State // state right after the k-th contract call of a callee in the top function (aftercall)
 	siteHits map[string]int  // callsite clauses matched by a call
 	globals  map[string]string
 	usedSpecs map[string]bool
@@ -1003,6 +1004,14 @@ func (x *Exec) newFrame(fn *ssa.Function, spec *FuncSpec, prefix string) *Frame 
 	for _, l := range fr.loops {
 		if spec != nil {
 			l.spec = spec.Loops[l.ordinal]
+		}
+	}
+	if spec != nil {
+		for n := range spec.Loops {
+			if n >= len(fr.loops) {
+				// a loop the contract has invariants for is not in the code (any more): its clauses would be checked nowhere
+				x.fail("contract of %s has clauses for loop %d, but the function has %d loop(s)", x.P.funcKey(fn), n, len(fr.loops))
+			}
 		}
 	}
 	for _, b := range fn.Blocks {
